@@ -240,6 +240,9 @@ fn replay(m: &mut Monitor, env: &Env, t: &Traced, per_name_budget: &mut BTreeMap
         m.count(&format!("positive_{name}"));
         let stranger = hostsvm::key("c19-stranger");
         let wit = |variant: &str| json!({"shard": shard, "instruction": name, "variant": variant, "privilege": format!("{privilege:?}"), "signer": signer.to_string()});
+        if m.wants_sample() {
+            m.sample(wit("positive run recorded; replayed with A: role revoked, B: stranger, C: holder of all other roles"));
+        }
         // Variant A: revoke the role of the same signer
         let roles: Vec<&'static str> = match privilege {
             Role(r) => vec![r],
@@ -292,14 +295,15 @@ fn replay(m: &mut Monitor, env: &Env, t: &Traced, per_name_budget: &mut BTreeMap
                 }
             }
         }
-        // Variant C: a key holding every other role (and, for Admin, every role)
+        // Variant C: a key holding every other role incl. RESTART_ADMIN (and, for Admin, every role); no restart pending
         {
             let mut s = base.clone();
             let other = hostsvm::key("c19-other-roles");
             s.airdrop(&other, 100 * LAMPORTS);
             let mut ok = true;
             for r in ALL_ROLES {
-                if roles.contains(r) || *r == RoleKey::RESTART_ADMIN {
+                // RESTART_ADMIN is granted too: with no cluster restart pending it confers nothing
+                if roles.contains(r) {
                     continue;
                 }
                 let g = six(
